@@ -41,7 +41,7 @@ func genC09(r *core.Rng, id int) *Case {
 	// valid, non-clashing options only: the whole program must be rejected (or wrongly
 	// accepted) because of THAT clash, not because of some other one converted earlier
 	fam := id % 10
-	targeted := fam == 1 || fam == 2 || fam == 4 || fam == 5 || fam == 6 || fam == 8 || fam == 9
+	targeted := fam == 1 || fam == 2 || fam == 4 || fam == 5 || fam == 6 || fam == 7 || fam == 8 || fam == 9
 	if targeted {
 		gen.DecorateSafe(r, s, d, 0.2)
 	} else {
@@ -82,6 +82,11 @@ func genC09(r *core.Rng, id int) *Case {
 		if e := gen.TripleTypenameOp(s, "T3"); e != nil {
 			defs = append(defs, e)
 		}
+	}
+	if fam == 7 {
+		// a field of abstract type named, by `typename`, like a fragment on that type with the
+		// same written selection (in both conversion orders)
+		defs = append(defs, gen.TypenameEqualsAbstractFragmentDefs(s, "TF", (id/10)%2 == 1)...)
 	}
 	if fam == 6 {
 		if e := gen.LeafTypenameClashOp(s, "LC"); e != nil {
